@@ -12,13 +12,15 @@ CRASH_RULE = ('write histories (sync/non-sync mix, flushes, manual compactions, 
               'Disk.Ev and must satisfy Conforms/ConformsStrict (hypothesis of the durability theorems); non-trivial = >= 5 non-empty recovered images; distinct = distinct counters')
 
 
-def run_crash(pid, tier, tags, theorems, imports, targets, variants, follow, quick=(10, 35, 45), thorough=(120, 90, 400)):
+def run_crash(pid, tier, tags, theorems, imports, targets, variants, follow, quick=(10, 35, 45), thorough=(120, 90, 400), extra=None):
     chk = Check(pid, tier)
     lean_stage(chk, theorems, imports, list(targets) + ['tracecheck'])
     n, nops, points = quick if tier == 'quick' else thorough
     chk.rules.append(CRASH_RULE)
     fam = lambda rng, db, img, nops_: crash_gen.history(rng, db, img, nops_, variants, follow, points)
     wl_run.run_histories(chk, n, nops, tags, 'crash-histories', family=fam)
+    if extra:
+        extra(chk, tier)
     chk.assumptions += ['crash model exactly as stated in C02 (per-file byte prefix >= last fsync; directory operations in issue order, at least up to the last fsync of anything)',
                         'POSIX rename is atomic; the kernel honours fsync',
                         'crash points are system-call boundaries (plus cuts inside unsynced tails via variants 3/4); the tie "log number advanced => tables hold that log\'s data" is the Lsm flush contract checked by C01']
